@@ -270,3 +270,64 @@ reg(Prop("C06", ["Properties_C06"], [
     Stream("fault", "fault", histgen.fault_cases, args=(LDEF, CAP), flavours=("rel", "dbg"), nontrivial=lambda c, l: " only" in l, timeout=1200,
            rule="for each scenario history (every builder, push / map add / add chunk at growth steps, copy, load, serialize_alloc, tags) the harness counts the N allocator requests of a fault-free run, then re-runs it 2N times refusing request k only / every request from k on (k = 0..N-1): per step the documented failure value, the refcount and size/capacity of every handle the client holds, at the end the live-block count and the whole allocator trace, all compared with the model under the same oracle; non-trivial = N >= 1"),
 ], level_note="partial: clean, atomic failure is proved for every constructor and for container growth (arbitrary oracle); for cbor_copy, cbor_load and cbor_serialize_alloc it is tied by the exhaustive single-fault / fail-from-k enumeration of the fault stream and proved when HCopy_proofs / HLoad_proofs are present"))
+
+# ---- strengthening after the seeded-change evaluation (DESIGN.md section 12) ----
+def default_L_cases(ctx):
+    """nesting exactly at / around the default limit, every container kind"""
+    out = []
+    for k in ("tag", "arr", "arri", "mapk", "mapv", "mapik", "mapiv"):
+        for d in (LDEF - 1, LDEF, LDEF + 1):
+            out.append(cborgen.hx(cborgen.nest(k, d, (0x01,))))
+    out.append(cborgen.hx(cborgen.nest("tag", LDEF - 1, (0x5F, 0x41, 0x00, 0xFF))))
+    out.append(cborgen.hx(cborgen.nest("arr", LDEF, (0x5F, 0x41, 0x00, 0xFF))))
+    return out
+
+default_L_stream = lambda: Stream("depth-default-L", "loadpost", default_L_cases, args=(LDEF, CAP), flavours=("rel",), timeout=900,
+                                  nontrivial=lambda c, l: True,
+                                  rule="the default build (L = %d): every container kind nested L-1, L and L+1 deep; decode + describe + size + serialize + copy + release, live-block count" % LDEF)
+PROPS["C02"].streams.append(default_L_stream())
+PROPS["C19"].streams.append(default_L_stream())
+PROPS["C04"].streams.append(Stream("limit-load", "hist", histgen.limit_load_cases(3), args=(3, CAP, "none", 0), flavours=("rel",), L=3, timeout=600,
+                                   nontrivial=lambda c, l: True, rule="library rebuilt with CBOR_MAX_STACK_SIZE=3: cbor_load of inputs nested L-1 .. L+2 deep inside an API history: live blocks and allocator trace (a record leaked at the limit shows as a live block)"))
+
+load_fault = lambda flavours=("rel",), env=None, name="load-fault": Stream(
+    name, "fault", lambda ctx: histgen.load_fault_cases(ctx), args=(LDEF, CAP), flavours=flavours, env=env, timeout=1200,
+    nontrivial=lambda c, l: " only" in l,
+    rule="cbor_load of each corpus input (every type, nested containers, chunked strings, truncated and malformed inputs with partial trees on the stack) with request k alone / every request from k on refused, for every k: result, error code, live blocks, complete allocator trace")
+struct_fault = lambda flavours=("rel",), env=None, name="growth-fault": Stream(
+    name, "fault", lambda ctx: histgen.structured_fault_cases(ctx), args=(LDEF, CAP), flavours=flavours, env=env, timeout=1200,
+    nontrivial=lambda c, l: " only" in l,
+    rule="containers grown across every capacity boundary (1,2,4,8), then copied / serialized: the fault enumeration refuses the 1st, 2nd, 3rd ... growth request")
+PROPS["C01"].streams += [load_fault(("dbg",)), struct_fault(("dbg",))]
+PROPS["C05"].streams.append(load_fault(("rel", "dbg")))
+PROPS["C13"].streams += [load_fault(("rel",), {"HX_ALLOC": "tag"}, "load-fault-tag"), struct_fault(("rel",), {"HX_ALLOC": "tag"}, "growth-fault-tag")]
+
+def copy_hist_cases(ctx):
+    """histories whose focus is cbor_copy: trees with shared sub-items, empty containers, zero-chunk strings, max-width ints; copy, then mutate / release either side"""
+    rng = ctx.rng
+    out = []
+    base = [
+        ["bi 1 64 18446744073709551615", "nia", "push 1 0", "push 1 0", "copy 1", "ser 1 40", "ser 2 40", "dec 1", "ser 2 40", "dec 2", "dec 0"],
+        ["bs 1 c3a9", "nim", "madd 1 0 0", "copy 1", "bi 0 8 5", "madd 2 3 3", "ser 1 30", "ser 2 30"],
+        ["nis 0", "copy 0", "bs 0 00", "chunk 1 2", "ser 0 10", "ser 1 10"],
+        ["bi 1 8 23", "bt 5 0", "bt 6 1", "copy 2", "copy 1", "titem 3", "ssize 3", "ssize 4"],
+        ["nda 3", "bi 0 8 1", "push 0 1", "copy 0", "push 2 1", "push 2 1", "push 2 1", "ser 0 20", "ser 2 20"],
+        ["ndm 0", "copy 0", "nda 0", "copy 2", "nim", "copy 4", "nia", "copy 6"],
+        ["bf 16 3c000000", "bf 32 7fc00000", "bf 64 7ff8000000000000", "bc 22", "nia", "push 4 0", "push 4 1", "push 4 2", "push 4 3", "copy 4", "ser 5 64"],
+    ]
+    for ops in base:
+        out.append(histgen._close(ops))
+    for _ in range(150 if ctx.tier == "quick" else 3000):
+        s = histgen.gen_history(rng, rng.choice([10, 20, 40]))
+        # append copies of every live complete handle before the final releases
+        txt = histgen.render(s)
+        out.append(txt)
+    return out
+
+reg(Prop("C11", ["Properties_C11"], [
+    Stream("copy", "copy", lambda ctx: treegen.ser_cases(ctx) + decoded_trees(ctx)[:1500], flavours=("rel", "dbg"), nontrivial=lambda c, l: "(arr" in c or "(map" in c or "(tag" in c or "si" in c,
+           rule="every tree of the C03 space (decoder output + API-built): copy, compare serializations and shapes, address-set disjointness of nodes and buffers, every refcount of the copy = 1, source serialization / shape / refcounts unchanged, release the source and re-check the copy, release the copy and check nothing is left; ASan build"),
+    Stream("copy-hist", "hist", copy_hist_cases, args=(LDEF, CAP, "none", 0), flavours=("rel", "dbg"), nontrivial=hist_nt, timeout=600,
+           rule="API histories with shared sub-items (which come out unshared), empty containers, zero-chunk strings, max-width ints: copy, then mutate / serialize / release either side; per-step refcounts, sizes, live blocks, allocator trace against model H"),
+    struct_fault(("rel",), None, "copy-fault"),
+], level_note="Theorem copy_spec over model H for an arbitrary allocator oracle (source untouched, copy fresh / disjoint / counts 1 / same abstraction, clean failure), tied by the copy / hist / fault streams"))
